@@ -127,6 +127,7 @@ type VC struct {
 	fromField   map[ssa.Value]string
 	hdrSrc      map[int]ast.Node
 	bareLoops   []string // header texts of the loops without a contract
+	bareLoopAt  []int    // per entry of bareLoops: source line where the loop starts, 0 = nested in another loop
 	curIdx      int
 	litTerms    map[Term]bool
 	addrVars    map[ssa.Value]bool // allocations that hold source variables (debug refs with IsAddr)
@@ -611,7 +612,7 @@ func (vc *VC) check(kind string, pos token.Pos, text string, cond Term, props []
 func (vc *VC) checkG(kind string, pos token.Pos, text string, guard, cond Term, props []string) *Obligation {
 	if cond == "true" {
 		switch kind {
-		case "at-call", "at-store", "at-return", "body-calls", "body-stores", "forbid-call", "format-const", "map-order", "loop-complete", "loop-nobreak", "loop-noreturn", "ensures", "inv-entry", "inv-preserved", "decreases", "fresh-writes":
+		case "at-call", "at-store", "callback", "at-return", "body-calls", "body-stores", "forbid-call", "nlfree-msg", "format-const", "map-order", "loop-complete", "loop-nobreak", "loop-noreturn", "ensures", "inv-entry", "inv-preserved", "decreases", "fresh-writes":
 			// syntactically trivial contract obligations are still recorded: if the code changes they
 			// become real obligations under the same name
 		default:
